@@ -260,7 +260,10 @@ def check(chk, cases, label, dep_enum=False):
     rnd = random.Random(chk.seed)
     sub = [c for c in cases if c['transport'] in ('grpc', 'rest')]
     if len(sub) > (500 if chk.tier == 'quick' else 4000):
-        sub = rnd.sample(sub, 500 if chk.tier == 'quick' else 4000)
+        # every case with an OMITTED request is kept (few, and the request coercion of the Ads client has its own code path)
+        fixed = [c for c in sub if c['form'] == 'none']
+        rest_ = [c for c in sub if c['form'] != 'none']
+        sub = fixed + rnd.sample(rest_, min(len(rest_), (500 if chk.tier == 'quick' else 4000)))
     apairs = run(chk, sub, nshards=6, ads=True)
     atraces = []
     for c, o in apairs:
